@@ -560,7 +560,19 @@ pub fn g_seam(rng: &mut Rng, fmt: Fmt) -> Case {
             4 => rng.range(-3, 3),
             _ => rng.range(-qa - 6, qb + 6),
         };
-        let sig = w.to_string().into_bytes();
+        let mut sig = w.to_string().into_bytes();
+        let mut q = q;
+        if rng.chance(1, 4) {
+            // the structured significand as a PREFIX: more digits follow (the truncating routes see 2^k - 1, 10^k - 1 ... as w)
+            let k = rng.range(1, 12);
+            for _ in 0..k {
+                sig.push(if rng.chance(1, 3) { b'0' } else { rng.digit() });
+            }
+            if sig.last() == Some(&b'0') {
+                *sig.last_mut().unwrap() = rng.nz_digit();
+            }
+            q -= k;
+        }
         if let Some(c) = place_random(rng, &sig, q, "SEAM") {
             return c;
         }
